@@ -44,10 +44,10 @@ def gen_local(rng):
                     emits.append("emit %s %d" % (ty, seq))
                     expect[seq] = dict(kind=ty, full=full, status=status, running=running)
                 elif status == "disconnected" or not full:
-                    ty = rng.choice(["se", "st"])
+                    ty = rng.choice(["se", "st", "se", "st", "sei", "sti"])
                     m = rng.choice(["b", "xs", "ds"] + (["xr", "dr"] if remote else []))
                     emits.append("emit %s %s %d" % (ty, m, seq))
-                    expect[seq] = dict(kind=ty, mode=m, full=full, status=status, running=running, remote=remote)
+                    expect[seq] = dict(kind=ty[:2], independent=(len(ty) == 3), mode=m, full=full, status=status, running=running, remote=remote)
             lines += emits
             lines.append("frame %d" % rng.choice([0, 0, 5, 16, 16, 40]))
     lines += ["frame 16", "frame 16", "frame 16"]
